@@ -15,32 +15,129 @@
   * `reject_*`           : unknown struct field, duplicate map key, declared struct length that disagrees, too many
                            elements for a fixed array, token of the wrong kind: each an error at the offending token.
   * `total`              : for a well-formed atlas no token list makes the model panic.
+
+  Status (see the individual doc comments):
+  * proved as stated: `no_early_done`, `rest_irrelevant`, all `reject_*`.
+  * `done_is_complete` is false as stated (a close token carrying a tag is accepted by the unmarshaller but is not
+    the flattening of any `TV`): `done_is_complete_false`; true modulo tags on close tokens
+    (`done_is_complete_modTags`) and when the consumed close tokens are untagged (`done_is_complete_fixed`).
+  * `total` is false as stated: the fuel bound is too small (`nested_opens_panic`: 3 units of fuel per token of a
+    recursive slice type) and, independently of fuel, a transform whose receive type is the transformed type
+    itself loops (`transform_loop_panics`, `total_false`).  `total_fixed` adds the missing hypothesis
+    (same-list delegation chains bounded by `D`) and the right bound `(2D+3)·|toks| + 2D+2 ≤ fuel`.
+  * `complete_plain` is false as stated (map entries come back in marshalling = key order while `normV` keeps
+    the order of the value; duplicate keys are rejected): `complete_plain_false`.  `complete_plain_rt` is the
+    exact round trip (`rtV` = `normV` with entries in key order), `complete_plain_sorted` the original
+    conclusion for values whose maps are listed in key order, `complete_plain_perm` the general statement up
+    to the order of map entries (`ValEqv`).
 -/
 import RefmtModel
+import RefmtProofs.Lemmas.ObjUnmarshal
+import RefmtProofs.Lemmas.ObjNoPanic
+import RefmtProofs.Lemmas.ObjRoundTrip
 set_option linter.unusedSimpArgs false
 set_option linter.unusedVariables false
 namespace Refmt.C13
 open Refmt Refmt.Obj
 
-theorem done_is_complete (ts : Types) (a : Atlas) (trs : Trs) (it : IfaceTys) (fuel id : Nat) (cur : Val)
+/-! ### streaming: done exactly on the last token of one well-formed value -/
+
+/-- everything the streaming invariant (`Refmt.Obj.allStr`) says about a successful `unmV` -/
+theorem stream (ts : Types) (a : Atlas) (trs : Trs) (it : IfaceTys) (fuel id : Nat) (cur : Val)
     (toks : List Tok) (v : Val) (rest : List Tok) (used : Nat)
     (h : unmV ts a trs it fuel id cur toks = .ok v rest used) :
+    used ≤ toks.length ∧ rest = toks.drop used ∧ toks = toks.take used ++ rest ∧
+    TreeS (toks.take used) ∧
+    (∀ more, unmV ts a trs it fuel id cur (toks.take used ++ more) = .ok v more used) ∧
+    (∀ k, k < used → ∃ u, unmV ts a trs it fuel id cur (toks.take k) = .more u) := by
+  obtain ⟨c, h1, h2, h3, h4, h5⟩ := (allStr ts a trs it fuel).v id cur toks v rest used h
+  simp only [Nat.add_zero] at h2
+  subst h1 h2
+  simp only [List.take_left', List.drop_left', List.length_append]
+  refine ⟨by omega, trivial, trivial, h3, h4, fun k hk => ?_⟩
+  rw [List.take_append_of_le_length (by omega)]
+  exact h5 k hk
+
+
+/-- ORIGINAL STATEMENT (false, see `done_is_complete_false`). -/
+def done_is_complete_statement : Prop :=
+  ∀ (ts : Types) (a : Atlas) (trs : Trs) (it : IfaceTys) (fuel id : Nat) (cur : Val)
+    (toks : List Tok) (v : Val) (rest : List Tok) (used : Nat),
+    unmV ts a trs it fuel id cur toks = .ok v rest used →
+    used ≤ toks.length ∧ rest = toks.drop used ∧ ∃ tv : TV, toks.take used = tv.flatten
+
+theorem flatten_ne_nil (tv : TV) : tv.flatten ≠ [] := by
+  cases tv <;> simp [TV.flatten]
+
+def ceToks : List Tok := [⟨.arrOpen 0, none⟩, ⟨.arrClose, some 7⟩]
+def ceTs : Types := [(0, .slice 1), (1, .prim .int true)]
+def ceA : Atlas := ⟨[], .default⟩
+
+theorem ce_no_tree : ¬ ∃ tv : TV, ceToks = tv.flatten := by
+  rintro ⟨tv, h⟩
+  cases tv with
+  | scalar t => simp [TV.flatten, ceToks] at h
+  | arr tag len items =>
+    simp [TV.flatten, ceToks] at h
+    obtain ⟨_, h⟩ := h
+    cases items with
+    | nil => simp [TV.flattenList] at h
+    | cons x xs =>
+      have := congrArg List.length h
+      have hx := flatten_ne_nil x
+      simp [TV.flattenList] at this
+      cases hf : x.flatten with
+      | nil => exact hx hf
+      | cons y ys => rw [hf] at this; simp at this; omega
+  | map tag len es => simp [TV.flatten, ceToks] at h
+
+/-- The original statement fails on `[arrOpen, arrClose#7]` into a slice: the unmarshaller does not look at the
+    tag of a close token, whereas `TV.flatten` only produces untagged close tokens.  (The culprit is the
+    statement: no decoder emits tagged close tokens.) -/
+theorem done_is_complete_false : ¬ done_is_complete_statement := by
+  intro h
+  have h1 : unmV ceTs ceA ⟨fun _ _ => none, fun _ _ => none⟩ default 5 0 (.slice none) ceToks = .ok (.slice (some [])) [] 2 := by
+    simp [unmV, peel, ceTs, ceToks, ceA, Types.get, List.lookup, upickBare, Atlas.get, unmBare, unmElems, URes.shift]
+  obtain ⟨-, -, tv, htv⟩ := h _ _ _ _ _ _ _ _ _ _ _ h1
+  exact ce_no_tree ⟨tv, by simpa [ceToks] using htv⟩
+
+/-- corrected: the consumed tokens are one token tree, up to the tags carried by close tokens -/
+theorem done_is_complete_modTags (ts : Types) (a : Atlas) (trs : Trs) (it : IfaceTys) (fuel id : Nat) (cur : Val)
+    (toks : List Tok) (v : Val) (rest : List Tok) (used : Nat)
+    (h : unmV ts a trs it fuel id cur toks = .ok v rest used) :
+    used ≤ toks.length ∧ rest = toks.drop used ∧ ∃ tv : TV, (toks.take used).map nc = tv.flatten := by
+  obtain ⟨h1, h2, -, h4, -, -⟩ := stream ts a trs it fuel id cur toks v rest used h
+  exact ⟨h1, h2, h4⟩
+
+/-- corrected: the original conclusion when the consumed close tokens carry no tag -/
+theorem done_is_complete_fixed (ts : Types) (a : Atlas) (trs : Trs) (it : IfaceTys) (fuel id : Nat) (cur : Val)
+    (toks : List Tok) (v : Val) (rest : List Tok) (used : Nat)
+    (h : unmV ts a trs it fuel id cur toks = .ok v rest used)
+    (hct : ∀ t ∈ toks.take used, (t.body = .arrClose ∨ t.body = .mapClose) → t.tag = none) :
     used ≤ toks.length ∧ rest = toks.drop used ∧ ∃ tv : TV, toks.take used = tv.flatten := by
-  sorry
+  obtain ⟨h1, h2, tv, h4⟩ := done_is_complete_modTags ts a trs it fuel id cur toks v rest used h
+  refine ⟨h1, h2, tv, ?_⟩
+  rw [← h4]
+  symm
+  conv => rhs; rw [← List.map_id (toks.take used)]
+  refine List.map_congr_left (fun t ht => ?_)
+  obtain ⟨body, tag⟩ := t
+  have := hct _ ht
+  cases body <;> simp_all [nc]
 
 /-- feeding fewer tokens never yields `ok`: completion comes exactly on the last token of the value -/
 theorem no_early_done (ts : Types) (a : Atlas) (trs : Trs) (it : IfaceTys) (fuel id : Nat) (cur : Val)
     (toks : List Tok) (v : Val) (rest : List Tok) (used k : Nat)
     (h : unmV ts a trs it fuel id cur toks = .ok v rest used) (hk : k < used) :
-    ∃ u, unmV ts a trs it fuel id cur (toks.take k) = .more u := by
-  sorry
+    ∃ u, unmV ts a trs it fuel id cur (toks.take k) = .more u :=
+  (stream ts a trs it fuel id cur toks v rest used h).2.2.2.2.2 k hk
 
 /-- the result does not depend on what follows the value -/
 theorem rest_irrelevant (ts : Types) (a : Atlas) (trs : Trs) (it : IfaceTys) (fuel id : Nat) (cur : Val)
     (toks : List Tok) (v : Val) (rest : List Tok) (used : Nat) (more : List Tok)
     (h : unmV ts a trs it fuel id cur toks = .ok v rest used) :
-    unmV ts a trs it fuel id cur (toks.take used ++ more) = .ok v more used := by
-  sorry
+    unmV ts a trs it fuel id cur (toks.take used ++ more) = .ok v more used :=
+  (stream ts a trs it fuel id cur toks v rest used h).2.2.2.2.1 more
 
 /-! ### strictness -/
 
@@ -48,27 +145,31 @@ theorem reject_unknown_field (ts : Types) (a : Atlas) (trs : Trs) (it : IfaceTys
     (len : Int) (idx : Nat) (cur : Val) (name : Bytes) (tag : Option Int) (rest : List Tok)
     (h : fields.find? (fun f => f.name == name) = none) :
     unmStruct ts a trs it (fuel + 1) id fields len idx cur (⟨.str name, tag⟩ :: rest) = .err 0 := by
-  sorry
-
+  unfold unmStruct
+  simp [h]
 theorem reject_struct_length_mismatch (ts : Types) (a : Atlas) (trs : Trs) (it : IfaceTys) (fuel id : Nat) (fields : List SMField)
     (len : Int) (idx : Nat) (cur : Val) (tag : Option Int) (rest : List Tok) (h0 : 0 ≤ len) (h : len ≠ idx) :
     unmStruct ts a trs it (fuel + 1) id fields len idx cur (⟨.mapClose, tag⟩ :: rest) = .err 0 := by
-  sorry
-
+  unfold unmStruct
+  simp [h0, h]
 theorem reject_duplicate_key (ts : Types) (a : Atlas) (trs : Trs) (it : IfaceTys) (fuel vt : Nat) (es : List (Val × Val))
     (s : Bytes) (tag : Option Int) (rest : List Tok) (h : hasKey (.str s) es = true) :
     unmMapEntries ts a trs it (fuel + 1) none vt es (⟨.str s, tag⟩ :: rest) = .err 0 := by
-  sorry
+  simp [unmMapEntries, h]
 
 theorem reject_array_overflow (ts : Types) (a : Atlas) (trs : Trs) (it : IfaceTys) (fuel e n : Nat) (acc : List Val)
     (t : Tok) (rest : List Tok) (hfull : acc.length ≥ n) (ht : t.body ≠ .arrClose) (ht2 : t.body ≠ .mapClose) :
     unmElems ts a trs it (fuel + 1) e (some n) acc (t :: rest) = .err 0 := by
-  sorry
+  unfold unmElems
+  split
+  · contradiction
+  · contradiction
+  · simp [hfull]
 
 theorem reject_wrong_kind_scalar (d : TyDesc) (t : Tok) (h : storePrim d t = none) (ts : Types) (a : Atlas) (trs : Trs)
     (it : IfaceTys) (fuel id : Nat) (cur : Val) (rest : List Tok) (hd : ts.get id = d) :
     unmBare ts a trs it (fuel + 1) id .prim cur (t :: rest) = .err 0 := by
-  sorry
+  simp [unmBare, hd, h]
 
 /-! ### totality -/
 
@@ -91,10 +192,173 @@ def atlasOk (ts : Types) (a : Atlas) : Bool :=
 def typesOk (ts : Types) : Bool :=
   ts.all fun (id, _) => match ts.get (peel ts 64 0 id).2 with | .ptr _ => false | _ => true
 
-theorem total (ts : Types) (a : Atlas) (trs : Trs) (it : IfaceTys) (fuel id : Nat) (cur : Val) (toks : List Tok)
-    (ha : atlasOk ts a = true) (ht : typesOk ts = true) (hf : toks.length + 64 < fuel) (hid : (ts.lookup id).isSome) :
-    ∀ u, unmV ts a trs it fuel id cur toks ≠ .panic u := by
-  sorry
+/-- ORIGINAL STATEMENT (false, see `total_false`, `nested_opens_panic`, `transform_loop_panics`). -/
+def total_statement : Prop :=
+  ∀ (ts : Types) (a : Atlas) (trs : Trs) (it : IfaceTys) (fuel id : Nat) (cur : Val) (toks : List Tok),
+    atlasOk ts a = true → typesOk ts = true → toks.length + 64 < fuel → (ts.lookup id).isSome →
+    ∀ u, unmV ts a trs it fuel id cur toks ≠ .panic u
+
+/-! counterexample (a): nested slices of a recursive type need 3 units of fuel per token -/
+def tsRec : Types := [(0, .slice 0)]
+def aEmpty : Atlas := ⟨[], .default⟩
+def opens (n : Nat) : List Tok := List.replicate n ⟨.arrOpen 0, none⟩
+
+theorem nested_opens_panic (trs : Trs) (it : IfaceTys) : ∀ (n : Nat) (cur : Val),
+    unmV tsRec aEmpty trs it (3 * n + 2) 0 cur (opens (n + 1)) = .panic (n + 1) := by
+  have hpeel : peel tsRec 64 0 0 = (0, 0) := by simp [peel, tsRec, Types.get, List.lookup]
+  have hpick : upickBare tsRec aEmpty 0 = .slice 0 := by
+    simp [upickBare, tsRec, Types.get, List.lookup, aEmpty, Atlas.get]
+  intro n
+  induction n with
+  | zero =>
+    intro cur
+    show unmV tsRec aEmpty trs it (1 + 1) 0 cur (⟨.arrOpen 0, none⟩ :: []) = _
+    rw [unmV_cons, hpeel]
+    simp only [beq_self_eq_true, if_true, hpick]
+    show unmBare tsRec aEmpty trs it (0 + 1) 0 (.slice 0) cur (⟨.arrOpen 0, none⟩ :: []) = _
+    rw [unmBare_slice]
+    simp [unmElems]
+  | succ n ih =>
+    intro cur
+    have e1 : 3 * (n + 1) + 2 = (3 * n + 4) + 1 := by omega
+    have e2 : opens (n + 1 + 1) = ⟨.arrOpen 0, none⟩ :: opens (n + 1) := rfl
+    rw [e1, e2, unmV_cons, hpeel]
+    simp only [beq_self_eq_true, if_true, hpick]
+    show unmBare tsRec aEmpty trs it ((3 * n + 3) + 1) 0 (.slice 0) cur (⟨.arrOpen 0, none⟩ :: opens (n + 1)) = _
+    rw [unmBare_slice]
+    simp only
+    show (unmElems tsRec aEmpty trs it ((3 * n + 2) + 1) 0 none [] (⟨.arrOpen 0, none⟩ :: opens n)).shift 1 = _
+    rw [unmElems_cons]
+    simp only [capFull]
+    have := ih (zeroVal tsRec 64 0)
+    simp only [opens, List.replicate_succ] at this
+    simp [opens, this]
+
+/-! counterexample (b): a transform whose receive type is the transformed type itself never terminates -/
+def tsInt : Types := [(0, .prim .int false)]
+def aLoop : Atlas := ⟨[⟨true, 0, none, .transform 0 0 0⟩], .default⟩
+
+theorem transform_loop_panics (trs : Trs) (it : IfaceTys) (t : Tok) (cur : Val) :
+    ∀ fuel, unmV tsInt aLoop trs it fuel 0 cur [t] = .panic 0 := by
+  have hpeel : peel tsInt 64 0 0 = (0, 0) := by simp [peel, tsInt, Types.get, List.lookup]
+  have hpick : upickBare tsInt aLoop 0 = .transform 0 0 := by
+    simp [upickBare, tsInt, Types.get, List.lookup, aLoop, Atlas.get, umachForEntry]
+  have hb : ∀ fuel cur, unmBare tsInt aLoop trs it fuel 0 (.transform 0 0) cur [t] = .panic 0 := by
+    intro fuel
+    induction fuel with
+    | zero => intro cur; simp [unmBare]
+    | succ n ih => intro cur; rw [unmBare_transform, hpick, ih]; rfl
+  intro fuel
+  cases fuel with
+  | zero => simp [unmV]
+  | succ n =>
+    rw [unmV_cons, hpeel]
+    simp only [beq_self_eq_true, if_true, hpick]
+    exact hb n cur
+
+/-- counterexample (a) satisfies every hypothesis of the original statement: 33 tokens, fuel 98 -/
+theorem total_fuel_bound_false (trs : Trs) (it : IfaceTys) (cur : Val) :
+    atlasOk tsRec aEmpty = true ∧ typesOk tsRec = true ∧ (opens 33).length + 64 < 98 ∧ (tsRec.lookup 0).isSome ∧
+    unmV tsRec aEmpty trs it 98 0 cur (opens 33) = .panic 33 :=
+  ⟨by decide, by decide, by simp [opens], by decide, nested_opens_panic trs it 32 cur⟩
+
+theorem total_false : ¬ total_statement := by
+  intro h
+  exact h tsInt aLoop ⟨fun _ _ => none, fun _ _ => none⟩ default 66 0 (.int 0) [⟨.int 1, none⟩]
+    (by decide) (by decide) (by simp) (by decide) 0 (transform_loop_panics _ _ _ _ 66)
+
+theorem entry_mOk {ts a} (ha : atlasOk ts a = true) {e : Entry} (he : e ∈ a.pool) : mOk ts a (umachForEntry ts e) := by
+  have hall := List.all_eq_true.mp ha
+  have h := hall e he
+  unfold umachForEntry
+  cases hk : e.k with
+  | invalid => simp [hk] at h
+  | structMap fs => simp [mOk]
+  | transform fn mty uty =>
+    simp only [hk] at h
+    simp only [mOk]
+    intro x hx
+    simp [hx] at h
+  | mapMorph mode =>
+    simp only [hk] at h
+    split at h
+    · rename_i k v hm; simp [hm, mOk]
+    · cases h
+  | union ms =>
+    simp only [hk, List.all_eq_true] at h
+    simp only [mOk]
+    intro p hp
+    have h2 := h p hp
+    obtain ⟨nm, idx⟩ := p
+    simp only at h2 ⊢
+    cases hme : a.pool[idx]? with
+    | none => simp [hme] at h2
+    | some me =>
+      refine ⟨me, rfl, ?_⟩
+      simp only [hme] at h2
+      have hmem : me ∈ a.pool := List.mem_of_getElem? hme
+      have h3 := hall me hmem
+      cases hmk : me.k with
+      | structMap fs => exact Or.inl ⟨fs, hmk⟩
+      | transform fn mty uty =>
+        refine Or.inr ⟨fn, mty, uty, hmk, ?_⟩
+        simp only [hmk] at h3
+        intro x hx
+        simp [hx] at h3
+      | union _ => simp [hmk] at h2
+      | mapMorph _ => simp [hmk] at h2
+      | invalid => simp [hmk] at h2
+
+theorem pick_mOk {ts a} (ha : atlasOk ts a = true) (id : Nat) (h : notPtr (ts.get id) ∨ (a.get id).isSome) :
+    mOk ts a (upickBare ts a id) := by
+  unfold upickBare
+  split
+  · simp [mOk]
+  · simp [mOk]
+  · split
+    · rename_i e he
+      exact entry_mOk ha (List.mem_of_find?_eq_some he)
+    · rename_i hn
+      have hnp : notPtr (ts.get id) := by
+        rcases h with h | h
+        · exact h
+        · simp [hn] at h
+      split <;> simp [mOk]
+      rename_i x hx
+      exact hnp _ hx
+
+theorem lookup_mem {ts : Types} {id : Nat} {d : TyDesc} (h : ts.lookup id = some d) : (id, d) ∈ ts := by
+  induction ts with
+  | nil => simp [List.lookup] at h
+  | cons p ps ih =>
+    obtain ⟨k, v⟩ := p
+    simp only [List.lookup] at h
+    split at h
+    · rename_i hk
+      simp at hk; cases h; subst hk; simp
+    · exact List.mem_cons_of_mem _ (ih h)
+
+theorem base_notPtr {ts} (ht : typesOk ts = true) (id : Nat) : notPtr (ts.get (peel ts 64 0 id).2) := by
+  cases hl : ts.lookup id with
+  | none =>
+    have hg : ts.get id = .other := by simp [Types.get, hl]
+    have : peel ts 64 0 id = (0, id) := by simp [peel, hg]
+    rw [this]; simp only; rw [hg]; intro e he; cases he
+  | some d =>
+    have h := List.all_eq_true.mp ht _ (lookup_mem hl)
+    simp only at h
+    intro e he
+    simp [he] at h
+
+theorem ctx_of {ts a D} (ha : atlasOk ts a = true) (ht : typesOk ts = true)
+    (hD : ∀ id, delegOk ts a D (upickBare ts a id)) : Ctx ts a D :=
+  ⟨pick_mOk ha, base_notPtr ht, hD, fun g e h => find?_get_isSome h⟩
+
+theorem total_fixed (ts : Types) (a : Atlas) (trs : Trs) (it : IfaceTys) (D fuel id : Nat) (cur : Val) (toks : List Tok)
+    (ha : atlasOk ts a = true) (ht : typesOk ts = true) (hD : ∀ id, delegOk ts a D (upickBare ts a id))
+    (hf : (2 * D + 3) * toks.length + (2 * D + 2) ≤ fuel) :
+    ∀ u, unmV ts a trs it fuel id cur toks ≠ .panic u :=
+  (allNP (ctx_of ha ht hD) fuel).v id cur toks hf
 
 /-! ### completeness: what the marshaller produces is accepted and reconstructs the value -/
 
@@ -138,11 +402,831 @@ def plainTy (ts : Types) (a : Atlas) : Nat → Nat → Bool
     | .ptr e => plainTy ts a fuel e
     | _ => false
 
-theorem complete_plain (ts : Types) (a : Atlas) (trs : Trs) (it : IfaceTys) (fuel id : Nat) (v : Val) (toks : List Tok)
-    (hp : plainTy ts a 64 id = true) (hv : hasTy ts 1000 id v = true) (ht : typesOk ts = true)
-    (hkeys : True)   -- map keys are distinct as in any Go map: part of `hv`'s intent; strengthen if needed
-    (hm : marshalV ts a trs fuel id v = ⟨toks, none⟩) (hf : toks.length + 64 < fuel) :
+/-- ORIGINAL STATEMENT (false, see `complete_plain_false`). -/
+def complete_plain_statement : Prop :=
+  ∀ (ts : Types) (a : Atlas) (trs : Trs) (it : IfaceTys) (fuel id : Nat) (v : Val) (toks : List Tok),
+    plainTy ts a 64 id = true → hasTy ts 1000 id v = true → typesOk ts = true → True →
+    marshalV ts a trs fuel id v = ⟨toks, none⟩ → toks.length + 64 < fuel →
+    unmV ts a trs it fuel id (zeroVal ts 64 id) toks = .ok (normV .pretty ts a trs it fuel id v) [] toks.length
+
+variable (ts : Types) (a : Atlas) (trs : Trs) (it : IfaceTys)
+
+theorem plain_peel : ∀ (p k c id : Nat), plainTy ts a p id = true → p ≤ k →
+    ∃ n base p', peel ts k c id = (c + n, base) ∧ plainTy ts a (p' + 1) base = true ∧ (∀ e, ts.get base ≠ .ptr e) ∧ chain ts n id base ∧ p' + 1 ≤ p := by
+  intro p
+  induction p with
+  | zero => intro k c id h; simp [plainTy] at h
+  | succ p ih =>
+    intro k c id h hk
+    obtain ⟨k, rfl⟩ : ∃ k', k = k' + 1 := ⟨k - 1, by omega⟩
+    cases hd : ts.get id with
+    | ptr e =>
+      have he : plainTy ts a p e = true := by simpa [plainTy, hd] using h
+      obtain ⟨n, base, p', h1, h2, h3, h4, h5⟩ := ih k (c + 1) e he (by omega)
+      refine ⟨n + 1, base, p', ?_, h2, h3, ⟨e, hd, h4⟩, by omega⟩
+      simp [peel, hd, h1]; omega
+    | _ =>
+      refine ⟨0, id, p, ?_, h, ?_, rfl, by omega⟩
+      · simp [peel, hd]
+      · simp [hd]
+
+theorem chain_hasTy : ∀ (n id base h : Nat) (v : Val), chain ts n id base → hasTy ts h id v = true →
+    derefN n v = none ∨ ∃ inner h', derefN n v = some inner ∧ hasTy ts h' base inner = true := by
+  intro n
+  induction n with
+  | zero => intro id base h v hc hv; cases hc; exact Or.inr ⟨v, h, rfl, hv⟩
+  | succ n ih =>
+    intro id base h v hc hv
+    obtain ⟨e, he, hc⟩ := hc
+    cases h with
+    | zero => simp [hasTy] at hv
+    | succ h =>
+      cases v <;> simp [hasTy, he] at hv
+      rename_i o
+      cases o with
+      | none => left; rfl
+      | some x =>
+        simp [hasTy, he] at hv
+        simpa [derefN] using ih e base h x hc hv
+
+theorem chain_distinct : ∀ (n : Nat) (k : Nat) (v inner : Val), distinctKeys k v → derefN n v = some inner →
+    ∃ k', distinctKeys k' inner := by
+  intro n
+  induction n with
+  | zero => intro k v inner hk hd; simp [derefN] at hd; subst hd; exact ⟨k, hk⟩
+  | succ n ih =>
+    intro k v inner hk hd
+    cases v <;> try (simp [derefN] at hd; done)
+    rename_i o
+    cases o with
+    | none => simp [derefN] at hd
+    | some x =>
+      simp only [derefN] at hd
+      cases k with
+      | zero => simp [distinctKeys] at hk
+      | succ k => exact ih k x inner (by simpa [distinctKeys] using hk) hd
+
+theorem zeroVal_mapCur0 (k id : Nat) : mapCur0 (zeroVal ts k id) = [] := by
+  cases k with
+  | zero => rfl
+  | succ k =>
+    unfold zeroVal
+    split <;> try rfl
+    split <;> rfl
+
+theorem zeroVal_not_ptr_some (k id : Nat) (x : Val) : zeroVal ts k id ≠ .ptr (some x) := by
+  cases k with
+  | zero => simp [zeroVal]
+  | succ k =>
+    unfold zeroVal
+    split <;> try simp
+    split <;> simp
+
+def CurZ (ts : Types) (cur : Val) : Prop := ∃ id', cur = zeroVal ts 64 id'
+
+theorem innerCur_zero : ∀ (n id : Nat) (cur : Val), CurZ ts cur → CurZ ts (innerCur ts n id cur) := by
+  intro n
+  induction n with
+  | zero => intro id cur h; simpa [innerCur] using h
+  | succ n ih =>
+    intro id cur h
+    unfold innerCur
+    split
+    · rename_i e x hq
+      obtain ⟨id', h⟩ := h
+      exact absurd h.symm (zeroVal_not_ptr_some ts 64 id' x)
+    · exact ih _ _ ⟨_, rfl⟩
+    · exact h
+
+theorem peel_nonptr (id : Nat) (h : ∀ e, ts.get id ≠ .ptr e) (k c : Nat) : peel ts (k+1) c id = (c, id) := by
+  unfold peel
+  split
+  · rename_i e he; exact absurd he (h e)
+  · rfl
+
+/-- the primitive machine: the token written is read back as the same value -/
+theorem prim_rt (h id : Nat) (v : Val) (toks : List Tok) (hv : hasTy ts h id v = true)
+    (hd : (∃ k b, ts.get id = .prim k b) ∨ (∃ b, ts.get id = .bytes b) ∨ (∃ n, ts.get id = .byteArr n))
+    (hm : primTok ts id v = ⟨toks, none⟩) :
+    ∃ tok, toks = [tok] ∧ storePrim (ts.get id) tok = some v ∧ tok.body ≠ .arrClose ∧ tok.body ≠ .mapClose ∧
+      (tok = ⟨.null, none⟩ ∨ tok.body ≠ .null) := by
+  cases h with
+  | zero => simp [hasTy] at hv
+  | succ h =>
+    rcases hd with ⟨k, b, hd⟩ | ⟨b, hd⟩ | ⟨n, hd⟩
+    · rw [hd]
+      cases v <;> simp only [hasTy, hd] at hv <;>
+        cases k <;> simp [intRange, uintMax] at hv <;>
+        simp [primTok, MOut.ok] at hm <;> subst hm <;>
+        simp [storePrim, intRange, uintMax, hv]
+    · rw [hd]
+      cases v <;> simp [hasTy, hd] at hv
+      rename_i o
+      cases o <;> simp [primTok, MOut.ok] at hm <;> subst hm <;> simp [storePrim]
+    · rw [hd]
+      cases v <;> simp [hasTy, hd] at hv
+      simp [primTok, MOut.ok] at hm; subst hm; simp [storePrim, hv]
+
+theorem nullSer_true (base : Nat) (inner : Val) (hb : ∀ e, ts.get base ≠ .ptr e)
+    (h : (marshalBare ts a trs 999 base (pickBare ts a base) inner).toks = [⟨.null, none⟩]) :
+    isNullSer ts a trs base inner = true := by
+  unfold isNullSer
+  rw [show (1000 : Nat) = 999 + 1 from rfl, marshalV_succ, peel_nonptr ts base hb 63 0]
+  simp [h]
+
+theorem nullSer_false (base : Nat) (inner : Val) (hb : ∀ e, ts.get base ≠ .ptr e) (t : Tok) (r : List Tok)
+    (h : (marshalBare ts a trs 999 base (pickBare ts a base) inner).toks = t :: r) (ht : t.body ≠ .null) :
+    isNullSer ts a trs base inner = false := by
+  unfold isNullSer
+  rw [show (1000 : Nat) = 999 + 1 from rfl, marshalV_succ, peel_nonptr ts base hb 63 0]
+  simp only [beq_self_eq_true, if_true, h]
+  cases r with
+  | nil => simp only
+  | cons x xs => rfl
+
+def NullSpec (toks : List Tok) (base : Nat) (inner : Val) : Prop :=
+  (toks = [⟨.null, none⟩] ∧ isNullSer ts a trs base inner = true) ∨
+  (∃ t r, toks = t :: r ∧ t.body ≠ .null ∧ t.body ≠ .arrClose ∧ t.body ≠ .mapClose ∧ isNullSer ts a trs base inner = false)
+
+structure RT (f : Nat) : Prop where
+  v : ∀ p h k id v toks, p ≤ 64 → plainTy ts a p id = true → hasTy ts h id v = true → distinctKeys k v →
+      marshalV ts a trs f id v = ⟨toks, none⟩ → ∀ g, f ≤ g → ∀ cur rest, CurZ ts cur →
+      unmV ts a trs it f id cur (toks ++ rest) = .ok (rtV ts a trs it g id v) rest toks.length ∧
+      ∃ t r, toks = t :: r ∧ t.body ≠ .arrClose ∧ t.body ≠ .mapClose
+  b : ∀ p h k id v toks, p + 1 ≤ 64 → plainTy ts a (p + 1) id = true → (∀ e, ts.get id ≠ .ptr e) → hasTy ts h id v = true → distinctKeys k v →
+      marshalBare ts a trs f id (pickBare ts a id) v = ⟨toks, none⟩ → ∀ g, f ≤ g → ∀ cur rest, CurZ ts cur →
+      unmBare ts a trs it f id (upickBare ts a id) cur (toks ++ rest) = .ok (rtBare ts a trs it g id (pickBare ts a id) v) rest toks.length ∧
+      NullSpec ts a trs toks id v
+  l : ∀ p h k e vs toks, p ≤ 64 → plainTy ts a p e = true → (∀ x ∈ vs, hasTy ts h e x = true) → (∀ x ∈ vs, distinctKeys k x) →
+      marshalList ts a trs f e vs = ⟨toks, none⟩ → ∀ g, f ≤ g → ∀ cap acc rest, (∀ n, cap = some n → acc.length + vs.length ≤ n) →
+      unmElems ts a trs it f e cap acc (toks ++ ⟨.arrClose, none⟩ :: rest) =
+        .ok (.slice (some (acc.reverse ++ vs.map (rtV ts a trs it g e)))) rest (toks.length + 1)
+  m : ∀ p h k vt (kvs : List (Bytes × Val)) toks, p ≤ 64 → plainTy ts a p vt = true → (∀ q ∈ kvs, hasTy ts h vt q.2 = true) →
+      (∀ q ∈ kvs, distinctKeys k q.2) → (kvs.map (·.1)).Nodup →
+      marshalEntries ts a trs f vt kvs = ⟨toks, none⟩ → ∀ g, f ≤ g → ∀ es0 rest, (∀ q ∈ kvs, hasKey (.str q.1) es0 = false) →
+      unmMapEntries ts a trs it f none vt es0 (toks ++ ⟨.mapClose, none⟩ :: rest) =
+        .ok (.map (some (es0 ++ kvs.map fun (q : Bytes × Val) => (Val.str q.1, rtV ts a trs it g vt q.2)))) rest (toks.length + 1)
+
+theorem rt_zero : RT ts a trs it 0 where
+  v := by intro p h k id v toks _ _ _ _ hm; simp [marshalV, MOut.bad] at hm
+  b := by intro p h k id v toks _ _ _ _ _ hm; simp [marshalBare, MOut.bad] at hm
+  l := by intro p h k e vs toks _ _ _ _ hm; simp [marshalList, MOut.bad] at hm
+  m := by intro p h k vt kvs toks _ _ _ _ _ hm; simp [marshalEntries, MOut.bad] at hm
+
+variable {ts a trs it}
+
+theorem rt_l {f} (ih : RT ts a trs it f) : ∀ p h k e vs toks, p ≤ 64 → plainTy ts a p e = true → (∀ x ∈ vs, hasTy ts h e x = true) → (∀ x ∈ vs, distinctKeys k x) →
+      marshalList ts a trs (f+1) e vs = ⟨toks, none⟩ → ∀ g, f + 1 ≤ g → ∀ cap acc rest, (∀ n, cap = some n → acc.length + vs.length ≤ n) →
+      unmElems ts a trs it (f+1) e cap acc (toks ++ ⟨.arrClose, none⟩ :: rest) =
+        .ok (.slice (some (acc.reverse ++ vs.map (rtV ts a trs it g e)))) rest (toks.length + 1) := by
+  intro p h k e vs toks hp64 hp hv hk hm g hg cap acc rest hcap
+  cases vs with
+  | nil =>
+    rw [marshalList_nil] at hm
+    simp [MOut.ok] at hm; subst hm
+    simp [unmElems_cons]
+  | cons x xs =>
+    rw [marshalList_cons] at hm
+    obtain ⟨tx, txs, h1, h2, rfl⟩ := seq_ok hm
+    obtain ⟨hx, t, r, rfl, hc1, hc2⟩ := ih.v p h k e x tx hp64 hp (hv x (by simp)) (hk x (by simp)) h1 g (by omega)
+      (zeroVal ts 64 e) (txs ++ ⟨.arrClose, none⟩ :: rest) ⟨e, rfl⟩
+    have hxs := ih.l p h k e xs txs hp64 hp (fun y hy => hv y (by simp [hy])) (fun y hy => hk y (by simp [hy])) h2 g (by omega)
+      cap (rtV ts a trs it g e x :: acc) rest (fun n hn => by have := hcap n hn; simp at this ⊢; omega)
+    have hcf : capFull cap acc = false := by
+      unfold capFull
+      cases cap with
+      | none => rfl
+      | some n => have := hcap n rfl; simp at this ⊢; omega
+    have e1 : (t :: r ++ txs) ++ ⟨.arrClose, none⟩ :: rest = t :: (r ++ (txs ++ ⟨.arrClose, none⟩ :: rest)) := by simp
+    rw [e1, unmElems_cons]
+    have e2 : t :: (r ++ (txs ++ ⟨.arrClose, none⟩ :: rest)) = (t :: r) ++ (txs ++ ⟨.arrClose, none⟩ :: rest) := by simp
+    split
+    · rename_i hb; exact absurd hb hc2
+    · rename_i hb; exact absurd hb hc1
+    · rw [hcf, e2, hx]
+      simp [hxs]
+      omega
+
+theorem hasKey_append_str (s s' : Bytes) (es : List (Val × Val)) (v : Val) :
+    hasKey (.str s) (es ++ [(.str s', v)]) = (hasKey (.str s) es || (s' == s)) := by
+  simp [hasKey, beqVal]
+
+theorem rt_m {f} (ih : RT ts a trs it f) : ∀ p h k vt (kvs : List (Bytes × Val)) toks, p ≤ 64 → plainTy ts a p vt = true → (∀ q ∈ kvs, hasTy ts h vt q.2 = true) →
+      (∀ q ∈ kvs, distinctKeys k q.2) → (kvs.map (·.1)).Nodup →
+      marshalEntries ts a trs (f+1) vt kvs = ⟨toks, none⟩ → ∀ g, f + 1 ≤ g → ∀ es0 rest, (∀ q ∈ kvs, hasKey (.str q.1) es0 = false) →
+      unmMapEntries ts a trs it (f+1) none vt es0 (toks ++ ⟨.mapClose, none⟩ :: rest) =
+        .ok (.map (some (es0 ++ kvs.map fun (q : Bytes × Val) => (Val.str q.1, rtV ts a trs it g vt q.2)))) rest (toks.length + 1) := by
+  intro p h k vt kvs toks hp64 hp hv hk hnd hm g hg es0 rest hes
+  cases kvs with
+  | nil =>
+    rw [marshalEntries_nil] at hm
+    simp [MOut.ok] at hm; subst hm
+    simp [unmMapEntries_cons]
+  | cons q qs =>
+    obtain ⟨s, x⟩ := q
+    rw [marshalEntries_cons] at hm
+    obtain ⟨t1, t23, h1, h23, rfl⟩ := seq_ok hm
+    obtain ⟨tx, txs, h2, h3, rfl⟩ := seq_ok h23
+    simp [MOut.ok] at h1; subst h1
+    obtain ⟨hx, -⟩ := ih.v p h k vt x tx hp64 hp (hv (s, x) (by simp)) (hk (s, x) (by simp)) h2 g (by omega)
+      (zeroVal ts 64 vt) (txs ++ ⟨.mapClose, none⟩ :: rest) ⟨vt, rfl⟩
+    simp only [List.map_cons, List.nodup_cons] at hnd
+    have hxs := ih.m p h k vt qs txs hp64 hp (fun y hy => hv y (by simp [hy])) (fun y hy => hk y (by simp [hy])) hnd.2 h3 g (by omega)
+      (es0 ++ [(.str s, rtV ts a trs it g vt x)]) rest (fun y hy => by
+        rw [hasKey_append_str, hes y (by simp [hy])]
+        simp only [Bool.false_or, beq_eq_false_iff_ne]
+        intro he
+        exact hnd.1 (by rw [he]; exact List.mem_map_of_mem hy))
+    have e1 : ([⟨.str s, none⟩] ++ (tx ++ txs)) ++ ⟨.mapClose, none⟩ :: rest =
+        ⟨.str s, none⟩ :: (tx ++ (txs ++ ⟨.mapClose, none⟩ :: rest)) := by simp
+    rw [e1, unmMapEntries_cons]
+    simp only [mapKey, hes (s, x) (by simp), hx]
+    simp [hxs]
+    omega
+
+theorem pick_prim {id k b} (hd : ts.get id = .prim k b) (hn : a.get id = none) :
+    pickBare ts a id = .prim ∧ upickBare ts a id = .prim := by
+  cases b <;> simp [pickBare, upickBare, hd, hn]
+theorem pick_bytes {id b} (hd : ts.get id = .bytes b) (hn : a.get id = none) :
+    pickBare ts a id = .prim ∧ upickBare ts a id = .prim := by
+  cases b <;> simp [pickBare, upickBare, hd, hn]
+theorem pick_byteArr {id n} (hd : ts.get id = .byteArr n) (hn : a.get id = none) :
+    pickBare ts a id = .prim ∧ upickBare ts a id = .prim := by
+  simp [pickBare, upickBare, hd, hn]
+theorem pick_slice {id e} (hd : ts.get id = .slice e) (hn : a.get id = none) :
+    pickBare ts a id = .slice e ∧ upickBare ts a id = .slice e := by
+  simp [pickBare, upickBare, hd, hn]
+theorem pick_arr {id n e} (hd : ts.get id = .arr n e) (hn : a.get id = none) :
+    pickBare ts a id = .array e ∧ upickBare ts a id = .array n e := by
+  simp [pickBare, upickBare, hd, hn]
+theorem pick_map {id k e} (hd : ts.get id = .map k e) (hn : a.get id = none) :
+    pickBare ts a id = .map k e a.defaultSort ∧ upickBare ts a id = .map k e := by
+  simp [pickBare, upickBare, hd, hn]
+
+theorem rt_b_prim {f} (h id : Nat) (v : Val) (toks : List Tok) (hv : hasTy ts h id v = true)
+    (hd : (∃ k b, ts.get id = .prim k b) ∨ (∃ b, ts.get id = .bytes b) ∨ (∃ n, ts.get id = .byteArr n))
+    (hnp : ∀ e, ts.get id ≠ .ptr e)
+    (hpick : pickBare ts a id = .prim ∧ upickBare ts a id = .prim)
+    (hm : marshalBare ts a trs (f+1) id (pickBare ts a id) v = ⟨toks, none⟩) (g : Nat) (hg : f + 1 ≤ g) (cur : Val) (rest : List Tok) :
+    unmBare ts a trs it (f+1) id (upickBare ts a id) cur (toks ++ rest) = .ok (rtBare ts a trs it g id (pickBare ts a id) v) rest toks.length ∧
+      NullSpec ts a trs toks id v := by
+  obtain ⟨g, rfl⟩ : ∃ g', g = g' + 1 := ⟨g - 1, by omega⟩
+  rw [hpick.1, marshalBare_prim] at hm
+  obtain ⟨tok, rfl, hs, hc1, hc2, hnull⟩ := prim_rt ts h id v toks hv hd hm
+  rw [hpick.1, hpick.2, rtBare_prim]
+  refine ⟨by simp [unmBare_prim, hs], ?_⟩
+  have h999 : (marshalBare ts a trs 999 id (pickBare ts a id) v).toks = [tok] := by
+    rw [hpick.1, show (999 : Nat) = 998 + 1 from rfl, marshalBare_prim, hm]
+  rcases hnull with rfl | hnn
+  · exact Or.inl ⟨rfl, nullSer_true ts a trs id v hnp h999⟩
+  · exact Or.inr ⟨tok, [], rfl, hnn, hc1, hc2, nullSer_false ts a trs id v hnp tok [] h999 hnn⟩
+
+
+theorem seq_toks_head (t : Tok) (B : Unit → MOut) : ((MOut.ok [t]).seq B).toks = t :: (B ()).toks := by
+  simp [MOut.seq, MOut.ok]
+
+theorem mapM_keys (es : List (Val × Val)) (hk : ∀ q ∈ es, ∃ s, q.1 = Val.str s) :
+    es.mapM (mkeyStr trs none) = some (es.map fun (k, x) => (keyStr k, x)) := by
+  induction es with
+  | nil => simp
+  | cons q qs ih =>
+    obtain ⟨k, x⟩ := q
+    obtain ⟨s, hs⟩ := hk (k, x) (by simp)
+    simp only at hs; subst hs
+    simp [List.mapM_cons, ih (fun q hq => hk q (by simp [hq])), mkeyStr, keyStr]
+
+theorem nullSer_false' (base : Nat) (inner : Val) (hb : ∀ e, ts.get base ≠ .ptr e) (t : Tok)
+    (h : ∃ r, (marshalBare ts a trs 999 base (pickBare ts a base) inner).toks = t :: r) (ht : t.body ≠ .null) :
+    isNullSer ts a trs base inner = false := by
+  obtain ⟨r, h⟩ := h
+  exact nullSer_false ts a trs base inner hb t r h ht
+
+theorem rt_b {f} (ih : RT ts a trs it f) : ∀ p h k id v toks, p + 1 ≤ 64 → plainTy ts a (p + 1) id = true → (∀ e, ts.get id ≠ .ptr e) → hasTy ts h id v = true → distinctKeys k v →
+      marshalBare ts a trs (f+1) id (pickBare ts a id) v = ⟨toks, none⟩ → ∀ g, f + 1 ≤ g → ∀ cur rest, CurZ ts cur →
+      unmBare ts a trs it (f+1) id (upickBare ts a id) cur (toks ++ rest) = .ok (rtBare ts a trs it g id (pickBare ts a id) v) rest toks.length ∧
+      NullSpec ts a trs toks id v := by
+  intro p h k id v toks hp64 hp hnp hv hk hm g hg cur rest hcur
+  cases hd : ts.get id with
+  | prim kk b =>
+    have hn : a.get id = none := by simpa [plainTy, hd] using hp
+    exact rt_b_prim h id v toks hv (Or.inl ⟨kk, b, hd⟩) hnp (pick_prim hd hn) hm g hg cur rest
+  | bytes b =>
+    have hn : a.get id = none := by simpa [plainTy, hd] using hp
+    exact rt_b_prim h id v toks hv (Or.inr (Or.inl ⟨b, hd⟩)) hnp (pick_bytes hd hn) hm g hg cur rest
+  | byteArr n =>
+    have hn : a.get id = none := by simpa [plainTy, hd] using hp
+    exact rt_b_prim h id v toks hv (Or.inr (Or.inr ⟨n, hd⟩)) hnp (pick_byteArr hd hn) hm g hg cur rest
+  | slice e =>
+    obtain ⟨g, rfl⟩ : ∃ g', g = g' + 1 := ⟨g - 1, by omega⟩
+    have hp' : a.get id = none ∧ plainTy ts a p e = true := by simpa [plainTy, hd] using hp
+    obtain ⟨hpk, hupk⟩ := pick_slice hd hp'.1
+    rw [hpk] at hm ⊢; rw [hupk]
+    cases h with
+    | zero => simp [hasTy] at hv
+    | succ h =>
+    cases k with
+    | zero => simp [distinctKeys] at hk
+    | succ k =>
+    cases v <;> simp only [hasTy, hd] at hv <;> try (cases hv; done)
+    rename_i o
+    cases o with
+    | none =>
+      rw [marshalBare_slice] at hm
+      simp [MOut.ok] at hm; subst hm
+      refine ⟨by simp [unmBare_slice, rtBare_slice], Or.inl ⟨rfl, nullSer_true ts a trs id _ hnp ?_⟩⟩
+      rw [hpk, show (999 : Nat) = 998 + 1 from rfl, marshalBare_slice]; rfl
+    | some es =>
+      rw [marshalBare_slice] at hm
+      simp only at hm
+      obtain ⟨t1, t23, h1, h23, rfl⟩ := seq_ok hm
+      obtain ⟨tl, tc, h2, h3, rfl⟩ := seq_ok h23
+      simp [MOut.ok] at h1 h3; subst h1 h3
+      have hv' : ∀ x ∈ es, hasTy ts h e x = true := by simpa [hasTy, hd] using hv
+      have hk' : ∀ x ∈ es, distinctKeys k x := by simpa [distinctKeys] using hk
+      have hl := ih.l p h k e es tl (by omega) hp'.2 hv' hk' h2 g (by omega) none [] rest (by simp)
+      refine ⟨?_, Or.inr ⟨⟨.arrOpen es.length, none⟩, tl ++ [⟨.arrClose, none⟩], rfl, by simp, by simp, by simp, nullSer_false' id _ hnp ⟨.arrOpen es.length, none⟩ ?_ (by simp)⟩⟩
+      · have e1 : ([⟨.arrOpen es.length, none⟩] ++ (tl ++ [⟨.arrClose, none⟩])) ++ rest =
+            ⟨.arrOpen es.length, none⟩ :: (tl ++ ⟨.arrClose, none⟩ :: rest) := by simp
+        rw [e1, unmBare_slice, rtBare_slice]
+        simp [hl]
+      · rw [hpk, show (999 : Nat) = 998 + 1 from rfl, marshalBare_slice]
+        exact ⟨_, seq_toks_head _ _⟩
+  | arr n e =>
+    obtain ⟨g, rfl⟩ : ∃ g', g = g' + 1 := ⟨g - 1, by omega⟩
+    have hp' : a.get id = none ∧ plainTy ts a p e = true := by simpa [plainTy, hd] using hp
+    obtain ⟨hpk, hupk⟩ := pick_arr hd hp'.1
+    rw [hpk] at hm ⊢; rw [hupk]
+    cases h with
+    | zero => simp [hasTy] at hv
+    | succ h =>
+    cases k with
+    | zero => simp [distinctKeys] at hk
+    | succ k =>
+    cases v <;> simp only [hasTy, hd] at hv <;> try (cases hv; done)
+    rename_i es
+    rw [marshalBare_array] at hm
+    simp only at hm
+    obtain ⟨t1, t23, h1, h23, rfl⟩ := seq_ok hm
+    obtain ⟨tl, tc, h2, h3, rfl⟩ := seq_ok h23
+    simp [MOut.ok] at h1 h3; subst h1 h3
+    have hv' : es.length = n ∧ ∀ x ∈ es, hasTy ts h e x = true := by simpa [hasTy, hd] using hv
+    have hk' : ∀ x ∈ es, distinctKeys k x := by simpa [distinctKeys] using hk
+    have hl := ih.l p h k e es tl (by omega) hp'.2 hv'.2 hk' h2 g (by omega) (some n) [] rest (by simp [hv'.1])
+    refine ⟨?_, Or.inr ⟨⟨.arrOpen es.length, none⟩, tl ++ [⟨.arrClose, none⟩], rfl, by simp, by simp, by simp, nullSer_false' id _ hnp ⟨.arrOpen es.length, none⟩ ?_ (by simp)⟩⟩
+    · have e1 : ([⟨.arrOpen es.length, none⟩] ++ (tl ++ [⟨.arrClose, none⟩])) ++ rest =
+          ⟨.arrOpen es.length, none⟩ :: (tl ++ ⟨.arrClose, none⟩ :: rest) := by simp
+      rw [e1, unmBare_array, rtBare_array]
+      simp [hl, arrFix, hv'.1]
+    · rw [hpk, show (999 : Nat) = 998 + 1 from rfl, marshalBare_array]
+      exact ⟨_, seq_toks_head _ _⟩
+  | map kt vt =>
+    obtain ⟨g, rfl⟩ : ∃ g', g = g' + 1 := ⟨g - 1, by omega⟩
+    have hp2 := hp
+    simp only [plainTy, hd, Bool.and_eq_true, Option.isNone_iff_eq_none] at hp2
+    obtain ⟨⟨hn, hkt⟩, hpv⟩ := hp2
+    obtain ⟨bk, hkt⟩ : ∃ bk, ts.get kt = .prim .string bk := by
+      split at hkt
+      · rename_i bk hh; exact ⟨bk, hh⟩
+      · cases hkt
+    have hmk : mkeyFn ts a kt = some none := by simp [mkeyFn, hkt]
+    have huk : ukeyFn ts a kt = some none := by simp [ukeyFn, hkt]
+    obtain ⟨hpk, hupk⟩ := pick_map hd hn
+    rw [hpk] at hm ⊢; rw [hupk]
+    cases h with
+    | zero => simp [hasTy] at hv
+    | succ h =>
+    cases k with
+    | zero => simp [distinctKeys] at hk
+    | succ k =>
+    cases v <;> simp only [hasTy, hd] at hv <;> try (cases hv; done)
+    rename_i o
+    cases o with
+    | none =>
+      rw [marshalBare_map, hmk] at hm
+      simp [MOut.ok] at hm; subst hm
+      refine ⟨by simp [unmBare_map, huk, rtBare_map], Or.inl ⟨rfl, nullSer_true ts a trs id _ hnp ?_⟩⟩
+      rw [hpk, show (999 : Nat) = 998 + 1 from rfl, marshalBare_map, hmk]; rfl
+    | some es =>
+      have hv' : ∀ q ∈ es, hasTy ts h kt q.1 = true ∧ hasTy ts h vt q.2 = true := by
+        intro q hq
+        obtain ⟨q1, q2⟩ := q
+        have := hv
+        simp at this
+        exact this q1 q2 hq
+      have hkeys : ∀ q ∈ es, ∃ s, q.1 = Val.str s := by
+        intro q hq
+        have h1 := (hv' q hq).1
+        cases h with
+        | zero => simp [hasTy] at h1
+        | succ h =>
+          obtain ⟨k1, x1⟩ := q
+          cases k1 <;> simp [hasTy, hkt, intRange, uintMax] at h1
+          exact ⟨_, rfl⟩
+      have hk' : ((es.map fun p => keyStr p.1).Nodup) ∧ ∀ q ∈ es, distinctKeys k q.2 := (by simpa [distinctKeys] using hk : _ ∧ _ ∧ _).2
+      rw [marshalBare_map, hmk] at hm
+      simp only [Option.getD_some, mapM_keys es hkeys, Option.isNone_some, Bool.false_eq_true, if_false] at hm
+      obtain ⟨t1, t23, h1, h23, rfl⟩ := seq_ok hm
+      obtain ⟨tl, tc, h2, h3, rfl⟩ := seq_ok h23
+      simp [MOut.ok] at h1 h3; subst h1 h3
+      let kvs := es.map fun (q : Val × Val) => (keyStr q.1, q.2)
+      have hperm := List.mergeSort_perm kvs (fun x y => keyLe a.defaultSort x.1 y.1)
+      have hmem : ∀ q ∈ sortKeys a.defaultSort kvs, ∃ q' ∈ es, q.2 = q'.2 := by
+        intro q hq
+        have : q ∈ kvs := hperm.mem_iff.mp hq
+        simp only [kvs, List.mem_map] at this
+        obtain ⟨q', hq', rfl⟩ := this
+        exact ⟨q', hq', rfl⟩
+      have hm' := ih.m p h k vt (sortKeys a.defaultSort kvs) tl (by omega) hpv
+        (fun q hq => by obtain ⟨q', hq', he⟩ := hmem q hq; rw [he]; exact (hv' q' hq').2)
+        (fun q hq => by obtain ⟨q', hq', he⟩ := hmem q hq; rw [he]; exact hk'.2 q' hq')
+        (by
+          have : ((sortKeys a.defaultSort kvs).map (·.1)).Perm (kvs.map (·.1)) := hperm.map _
+          rw [this.nodup_iff]
+          simpa [kvs, List.map_map, Function.comp_def] using hk'.1)
+        h2 g (by omega) [] rest (by intro q hq; simp [hasKey])
+      obtain ⟨idz, rfl⟩ := hcur
+      refine ⟨?_, Or.inr ⟨⟨.mapOpen es.length, none⟩, tl ++ [⟨.mapClose, none⟩], rfl, by simp, by simp, by simp, nullSer_false' id _ hnp ⟨.mapOpen es.length, none⟩ ?_ (by simp)⟩⟩
+      · have e1 : ([⟨.mapOpen es.length, none⟩] ++ (tl ++ [⟨.mapClose, none⟩])) ++ rest =
+            ⟨.mapOpen es.length, none⟩ :: (tl ++ ⟨.mapClose, none⟩ :: rest) := by simp
+        rw [e1, unmBare_map, huk, rtBare_map]
+        simp only [zeroVal_mapCur0]
+        simp [hm', kvs]
+      · rw [hpk, show (999 : Nat) = 998 + 1 from rfl, marshalBare_map, hmk]
+        simp only [Option.getD_some, mapM_keys es hkeys, Option.isNone_some, Bool.false_eq_true, if_false]
+        exact ⟨_, seq_toks_head _ _⟩
+  | ptr e => exact absurd hd (hnp e)
+  | iface m => simp [plainTy, hd] at hp
+  | struct fs => simp [plainTy, hd] at hp
+  | other => simp [plainTy, hd] at hp
+
+theorem rt_v {f} (ih : RT ts a trs it f) : ∀ p h k id v toks, p ≤ 64 → plainTy ts a p id = true → hasTy ts h id v = true → distinctKeys k v →
+      marshalV ts a trs (f+1) id v = ⟨toks, none⟩ → ∀ g, f + 1 ≤ g → ∀ cur rest, CurZ ts cur →
+      unmV ts a trs it (f+1) id cur (toks ++ rest) = .ok (rtV ts a trs it g id v) rest toks.length ∧
+      ∃ t r, toks = t :: r ∧ t.body ≠ .arrClose ∧ t.body ≠ .mapClose := by
+  intro p h k id v toks hp64 hp hv hk hm g hg cur rest hcur
+  obtain ⟨g, rfl⟩ : ∃ g', g = g' + 1 := ⟨g - 1, by omega⟩
+  obtain ⟨n, base, p', hpeel, hpb, hnp, hch, hp'p⟩ := plain_peel ts a p 64 0 id hp hp64
+  simp only [Nat.zero_add] at hpeel
+  have hp'64 : p' + 1 ≤ 64 := by omega
+  rw [marshalV_succ, hpeel] at hm
+  rw [rtV_succ, hpeel]
+  simp only at hm ⊢
+  cases n with
+  | zero =>
+    cases hch
+    simp only [beq_self_eq_true, if_true] at hm ⊢
+    obtain ⟨hu, hns⟩ := ih.b p' h k id v toks hp'64 hpb hnp hv hk hm g (by omega) cur rest hcur
+    have hhead : ∃ t r, toks = t :: r ∧ t.body ≠ .arrClose ∧ t.body ≠ .mapClose := by
+      rcases hns with ⟨rfl, -⟩ | ⟨t, r, rfl, -, h1, h2, -⟩
+      · exact ⟨_, _, rfl, by simp, by simp⟩
+      · exact ⟨t, r, rfl, h1, h2⟩
+    refine ⟨?_, hhead⟩
+    obtain ⟨t, r, rfl, -, -⟩ := hhead
+    rw [List.cons_append, unmV_cons, hpeel]
+    simpa using hu
+  | succ n =>
+    have hn0 : ((n + 1 == 0) = false) := by simp
+    simp only [hn0] at hm ⊢
+    rcases chain_hasTy ts (n + 1) id base h v hch hv with hdn | ⟨inner, h', hdn, hvi⟩
+    · rw [hdn] at hm ⊢
+      simp [MOut.ok] at hm; subst hm
+      refine ⟨?_, ⟨_, _, rfl, by simp, by simp⟩⟩
+      rw [List.cons_append, unmV_cons, hpeel]
+      simp
+    · rw [hdn] at hm ⊢
+      simp only at hm ⊢
+      obtain ⟨k', hki⟩ := chain_distinct (n + 1) k v inner hk hdn
+      obtain ⟨hu, hns⟩ := ih.b p' h' k' base inner toks hp'64 hpb hnp hvi hki hm g (by omega)
+        (innerCur ts (n + 1) id cur) rest (innerCur_zero ts _ _ _ hcur)
+      rcases hns with ⟨rfl, hnull⟩ | ⟨t, r, rfl, hnn, h1, h2, hnull⟩
+      · refine ⟨?_, ⟨_, _, rfl, by simp, by simp⟩⟩
+        rw [List.cons_append, unmV_cons, hpeel]
+        simp [hnull]
+      · refine ⟨?_, ⟨t, r, rfl, h1, h2⟩⟩
+        rw [List.cons_append, unmV_cons, hpeel]
+        simp only [hn0, hnull, Bool.false_eq_true, if_false]
+        rw [List.cons_append] at hu
+        first
+          | (rw [hu]; rfl)
+          | (split
+             · rename_i hb; exact absurd hb hnn
+             · rw [hu]; rfl)
+
+theorem rt_all (f : Nat) : RT ts a trs it f := by
+  induction f with
+  | zero => exact rt_zero ts a trs it
+  | succ n ih => exact ⟨rt_v ih, rt_b ih, rt_l ih, rt_m ih⟩
+
+variable (ts a trs it)
+
+theorem normV_succ (fuel id v) : normV .pretty ts a trs it (fuel+1) id v =
+    if (peel ts 64 0 id).1 == 0 then normBare .pretty ts a trs it fuel (peel ts 64 0 id).2 (pickBare ts a (peel ts 64 0 id).2) v
+    else match derefN (peel ts 64 0 id).1 v with
+      | none => .ptr none
+      | some inner =>
+        if isNullSer ts a trs (peel ts 64 0 id).2 inner then .ptr none
+        else wrapPtr (peel ts 64 0 id).1 (normBare .pretty ts a trs it fuel (peel ts 64 0 id).2 (pickBare ts a (peel ts 64 0 id).2) inner) := by
+  rw [normV.eq_def]
+  try rfl
+
+theorem normBare_slice (fuel id e v) : normBare .pretty ts a trs it (fuel+1) id (.slice e) v =
+    (match v with | .slice (some vs) => .slice (some (vs.map (normV .pretty ts a trs it fuel e))) | x => x) := by
+  rw [normBare.eq_def]
+  try rfl
+theorem normBare_array (fuel id e v) : normBare .pretty ts a trs it (fuel+1) id (.array e) v =
+    (match v with | .arr vs => .arr (vs.map (normV .pretty ts a trs it fuel e)) | x => x) := by
+  rw [normBare.eq_def]
+  try rfl
+theorem normBare_map (fuel id kt vt mode v) : normBare .pretty ts a trs it (fuel+1) id (.map kt vt mode) v =
+    (match v with
+     | .map (some es) => .map (some (es.map fun (k, x) => (k, normV .pretty ts a trs it fuel vt x)))
+     | x => x) := by
+  rw [normBare.eq_def]
+  try rfl
+theorem normBare_prim (fuel id v) : normBare .pretty ts a trs it (fuel+1) id .prim v = v := by
+  have := rtBare_prim ts a trs it fuel id v
+  rw [rtBare.eq_def] at this
+  exact this
+
+
+theorem derefN_sorted (mode) : ∀ (n : Nat) (k : Nat) (v inner : Val), mapsSorted mode k v → derefN n v = some inner →
+    ∃ k', mapsSorted mode k' inner := by
+  intro n
+  induction n with
+  | zero => intro k v inner hk hd; simp [derefN] at hd; subst hd; exact ⟨k, hk⟩
+  | succ n ih =>
+    intro k v inner hk hd
+    cases v <;> try (simp [derefN] at hd; done)
+    rename_i o
+    cases o with
+    | none => simp [derefN] at hd
+    | some x =>
+      simp only [derefN] at hd
+      cases k with
+      | zero => simp [mapsSorted] at hk
+      | succ k => exact ih k x inner (by simpa [mapsSorted] using hk) hd
+
+/-- on values whose maps are listed in key order the round-trip value is exactly `normV` -/
+theorem rt_eq_norm (g : Nat) :
+    (∀ p k id v, p ≤ 64 → plainTy ts a p id = true → mapsSorted a.defaultSort k v →
+      rtV ts a trs it g id v = normV .pretty ts a trs it g id v) ∧
+    (∀ p k id v, p + 1 ≤ 64 → plainTy ts a (p + 1) id = true → (∀ e, ts.get id ≠ .ptr e) → mapsSorted a.defaultSort k v →
+      rtBare ts a trs it g id (pickBare ts a id) v = normBare .pretty ts a trs it g id (pickBare ts a id) v) := by
+  induction g with
+  | zero => exact ⟨fun _ _ _ _ _ _ _ => by simp [rtV, normV], fun _ _ _ _ _ _ _ _ => by simp [rtBare, normBare]⟩
+  | succ g ih =>
+    constructor
+    · intro p k id v hp64 hp hs
+      obtain ⟨n, base, p', hpeel, hpb, hnp, hch, hp'p⟩ := plain_peel ts a p 64 0 id hp hp64
+      simp only [Nat.zero_add] at hpeel
+      rw [rtV_succ, normV_succ, hpeel]
+      simp only
+      split
+      · exact ih.2 p' k base v (by omega) hpb hnp hs
+      · cases hdn : derefN n v with
+        | none => rfl
+        | some inner =>
+          obtain ⟨k', hs'⟩ := derefN_sorted a.defaultSort n k v inner hs hdn
+          simp only [ih.2 p' k' base inner (by omega) hpb hnp hs']
+    · intro p k id v hp64 hp hnp hs
+      cases hd : ts.get id with
+      | prim kk b =>
+        have hn : a.get id = none := by simpa [plainTy, hd] using hp
+        rw [(pick_prim hd hn).1, rtBare_prim, normBare_prim]
+      | bytes b =>
+        have hn : a.get id = none := by simpa [plainTy, hd] using hp
+        rw [(pick_bytes hd hn).1, rtBare_prim, normBare_prim]
+      | byteArr n =>
+        have hn : a.get id = none := by simpa [plainTy, hd] using hp
+        rw [(pick_byteArr hd hn).1, rtBare_prim, normBare_prim]
+      | slice e =>
+        have hp' : a.get id = none ∧ plainTy ts a p e = true := by simpa [plainTy, hd] using hp
+        rw [(pick_slice hd hp'.1).1, rtBare_slice, normBare_slice]
+        cases v <;> try rfl
+        rename_i o
+        cases o with
+        | none => rfl
+        | some vs =>
+          cases k with
+          | zero => simp [mapsSorted] at hs
+          | succ k =>
+            simp only [mapsSorted] at hs
+            simp only [Val.slice.injEq, Option.some.injEq]
+            exact List.map_congr_left (fun x hx => ih.1 p k e x (by omega) hp'.2 (hs x hx))
+      | arr n e =>
+        have hp' : a.get id = none ∧ plainTy ts a p e = true := by simpa [plainTy, hd] using hp
+        rw [(pick_arr hd hp'.1).1, rtBare_array, normBare_array]
+        cases v <;> try rfl
+        rename_i vs
+        cases k with
+        | zero => simp [mapsSorted] at hs
+        | succ k =>
+          simp only [mapsSorted] at hs
+          simp only [Val.arr.injEq]
+          exact List.map_congr_left (fun x hx => ih.1 p k e x (by omega) hp'.2 (hs x hx))
+      | map kt vt =>
+        have hp2 := hp
+        simp only [plainTy, hd, Bool.and_eq_true, Option.isNone_iff_eq_none] at hp2
+        obtain ⟨⟨hn, hkt⟩, hpv⟩ := hp2
+        rw [(pick_map hd hn).1, rtBare_map, normBare_map]
+        cases v <;> try rfl
+        rename_i o
+        cases o with
+        | none => rfl
+        | some es =>
+          cases k with
+          | zero => simp [mapsSorted] at hs
+          | succ k =>
+            simp only [mapsSorted] at hs
+            obtain ⟨hsort, hstr, hsub⟩ := hs
+            simp only [Val.map.injEq, Option.some.injEq]
+            have : sortKeys a.defaultSort (es.map fun x => (keyStr x.1, x.2)) = es.map fun x => (keyStr x.1, x.2) :=
+              List.mergeSort_of_pairwise hsort
+            rw [this, List.map_map]
+            refine List.map_congr_left (fun q hq => ?_)
+            obtain ⟨s, hs1⟩ := hstr q hq
+            obtain ⟨q1, q2⟩ := q
+            simp only at hs1; subst hs1
+            simp [keyStr, ih.1 p k vt q2 (by omega) hpv (hsub _ hq)]
+      | ptr e => exact absurd hd (hnp e)
+      | iface m => simp [plainTy, hd] at hp
+      | struct fs => simp [plainTy, hd] at hp
+      | other => simp [plainTy, hd] at hp
+
+theorem ValEqv.wrap {x y : Val} (h : ValEqv x y) : ∀ n, ValEqv (wrapPtr n x) (wrapPtr n y)
+  | 0 => h
+  | n+1 => ValEqv.ptr (ValEqv.wrap h n)
+
+theorem zip_map_mem {α β γ : Type} (f : α → β) (g : α → γ) (l : List α) (p : β × γ) (hp : p ∈ (l.map f).zip (l.map g)) :
+    ∃ x ∈ l, p = (f x, g x) := by
+  rw [List.zip_map'] at hp
+  simpa [eq_comm] using hp
+
+/-- in general the round-trip value is `normV` up to the order of map entries -/
+theorem rt_eqv_norm (g : Nat) :
+    (∀ p k id v, p ≤ 64 → plainTy ts a p id = true → distinctKeys k v →
+      ValEqv (rtV ts a trs it g id v) (normV .pretty ts a trs it g id v)) ∧
+    (∀ p k id v, p + 1 ≤ 64 → plainTy ts a (p + 1) id = true → (∀ e, ts.get id ≠ .ptr e) → distinctKeys k v →
+      ValEqv (rtBare ts a trs it g id (pickBare ts a id) v) (normBare .pretty ts a trs it g id (pickBare ts a id) v)) := by
+  induction g with
+  | zero =>
+    exact ⟨fun _ _ _ v _ _ _ => by simp only [rtV, normV]; exact ValEqv.refl v,
+           fun _ _ _ v _ _ _ _ => by simp only [rtBare, normBare]; exact ValEqv.refl v⟩
+  | succ g ih =>
+    constructor
+    · intro p k id v hp64 hp hs
+      obtain ⟨n, base, p', hpeel, hpb, hnp, hch, hp'p⟩ := plain_peel ts a p 64 0 id hp hp64
+      simp only [Nat.zero_add] at hpeel
+      rw [rtV_succ, normV_succ, hpeel]
+      simp only
+      split
+      · exact ih.2 p' k base v (by omega) hpb hnp hs
+      · cases hdn : derefN n v with
+        | none => exact ValEqv.refl _
+        | some inner =>
+          obtain ⟨k', hs'⟩ := chain_distinct n k v inner hs hdn
+          simp only
+          split
+          · exact ValEqv.refl _
+          · exact ValEqv.wrap (ih.2 p' k' base inner (by omega) hpb hnp hs') n
+    · intro p k id v hp64 hp hnp hs
+      cases hd : ts.get id with
+      | prim kk b =>
+        have hn : a.get id = none := by simpa [plainTy, hd] using hp
+        rw [(pick_prim hd hn).1, rtBare_prim, normBare_prim]; exact ValEqv.refl _
+      | bytes b =>
+        have hn : a.get id = none := by simpa [plainTy, hd] using hp
+        rw [(pick_bytes hd hn).1, rtBare_prim, normBare_prim]; exact ValEqv.refl _
+      | byteArr n =>
+        have hn : a.get id = none := by simpa [plainTy, hd] using hp
+        rw [(pick_byteArr hd hn).1, rtBare_prim, normBare_prim]; exact ValEqv.refl _
+      | slice e =>
+        have hp' : a.get id = none ∧ plainTy ts a p e = true := by simpa [plainTy, hd] using hp
+        rw [(pick_slice hd hp'.1).1, rtBare_slice, normBare_slice]
+        cases v <;> try exact ValEqv.refl _
+        rename_i o
+        cases o with
+        | none => exact ValEqv.refl _
+        | some vs =>
+          cases k with
+          | zero => simp [distinctKeys] at hs
+          | succ k =>
+            simp only [distinctKeys] at hs
+            refine ValEqv.slice (by simp) (fun q hq => ?_)
+            obtain ⟨x, hx, rfl⟩ := zip_map_mem _ _ vs q hq
+            exact ih.1 p k e x (by omega) hp'.2 (hs x hx)
+      | arr n e =>
+        have hp' : a.get id = none ∧ plainTy ts a p e = true := by simpa [plainTy, hd] using hp
+        rw [(pick_arr hd hp'.1).1, rtBare_array, normBare_array]
+        cases v <;> try exact ValEqv.refl _
+        rename_i vs
+        cases k with
+        | zero => simp [distinctKeys] at hs
+        | succ k =>
+          simp only [distinctKeys] at hs
+          refine ValEqv.arr (by simp) (fun q hq => ?_)
+          obtain ⟨x, hx, rfl⟩ := zip_map_mem _ _ vs q hq
+          exact ih.1 p k e x (by omega) hp'.2 (hs x hx)
+      | map kt vt =>
+        have hp2 := hp
+        simp only [plainTy, hd, Bool.and_eq_true, Option.isNone_iff_eq_none] at hp2
+        obtain ⟨⟨hn, hkt⟩, hpv⟩ := hp2
+        rw [(pick_map hd hn).1, rtBare_map, normBare_map]
+        cases v <;> try exact ValEqv.refl _
+        rename_i o
+        cases o with
+        | none => exact ValEqv.refl _
+        | some es =>
+          cases k with
+          | zero => simp [distinctKeys] at hs
+          | succ k =>
+            simp only [distinctKeys] at hs
+            obtain ⟨hstr, hnd, hsub⟩ := hs
+            simp only
+            refine ValEqv.map (zs := es.map fun q => (q.1, rtV ts a trs it g vt q.2)) ?_ (by simp) ?_ ?_
+            · have hperm := (List.mergeSort_perm (es.map fun x => (keyStr x.1, x.2))
+                (fun x y => keyLe a.defaultSort x.1 y.1)).map (fun (q : Bytes × Val) => (Val.str q.1, rtV ts a trs it g vt q.2))
+              refine hperm.trans (List.Perm.of_eq ?_)
+              rw [List.map_map]
+              refine List.map_congr_left (fun q hq => ?_)
+              obtain ⟨s, hs1⟩ := hstr q hq
+              obtain ⟨q1, q2⟩ := q
+              simp only at hs1; subst hs1
+              simp [keyStr]
+            · intro q hq
+              obtain ⟨x, hx, rfl⟩ := zip_map_mem _ _ es q hq
+              rfl
+            · intro q hq
+              obtain ⟨x, hx, rfl⟩ := zip_map_mem _ _ es q hq
+              exact ih.1 p k vt x.2 (by omega) hpv (hsub x hx)
+      | ptr e => exact absurd hd (hnp e)
+      | iface m => simp [plainTy, hd] at hp
+      | struct fs => simp [plainTy, hd] at hp
+      | other => simp [plainTy, hd] at hp
+/-- the exact token-level round trip on plain types -/
+theorem complete_plain_rt (ts : Types) (a : Atlas) (trs : Trs) (it : IfaceTys) (fuel id : Nat) (v : Val) (toks : List Tok)
+    (hp : plainTy ts a 64 id = true) (hv : hasTy ts 1000 id v = true)
+    (hkeys : distinctKeys 1000 v)
+    (hm : marshalV ts a trs fuel id v = ⟨toks, none⟩) :
+    unmV ts a trs it fuel id (zeroVal ts 64 id) toks = .ok (rtV ts a trs it fuel id v) [] toks.length := by
+  have := ((rt_all (ts := ts) (a := a) (trs := trs) (it := it) fuel).v 64 1000 1000 id v toks (Nat.le_refl _) hp hv hkeys hm fuel
+    (Nat.le_refl _) (zeroVal ts 64 id) [] ⟨id, rfl⟩).1
+  simpa using this
+
+def ceTsM : Types := [(0, .map 1 2), (1, .prim .string true), (2, .prim .int true)]
+def ceAM : Atlas := ⟨[], .default⟩
+def ceV : Val := .map (some [(.str [98], .int 1), (.str [97], .int 2)])
+def ceTrs : Trs := ⟨fun _ _ => none, fun _ _ => none⟩
+
+theorem ce_plain : plainTy ceTsM ceAM 64 0 = true := by
+  decide
+theorem ce_hasTy : hasTy ceTsM 1000 0 ceV = true := by
+  decide
+theorem ce_distinct : distinctKeys 1000 ceV := by
+  show distinctKeys (999 + 1) (.map (some [(.str [98], .int 1), (.str [97], .int 2)]))
+  rw [distinctKeys]
+  refine ⟨by simp, by simp [keyStr], fun p hp => ?_⟩
+  simp at hp
+  rcases hp with rfl | rfl <;> (show distinctKeys (998 + 1) (Val.int _); simp [distinctKeys])
+theorem ce_marshal : marshalV ceTsM ceAM ceTrs 100 0 ceV =
+    ⟨[⟨.mapOpen 2, none⟩, ⟨.str [97], none⟩, ⟨.int 2, none⟩, ⟨.str [98], none⟩, ⟨.int 1, none⟩, ⟨.mapClose, none⟩], none⟩ := by
+  simp [marshalV, marshalBare, marshalEntries, peel, ceTsM, ceAM, ceV, Types.get, List.lookup, pickBare, Atlas.get,
+    sortKeys, List.mergeSort, List.merge, keyLe, bytesLe, bytesLt, MOut.seq, MOut.ok, primTok]
+theorem ce_rt (it : IfaceTys) : rtV ceTsM ceAM ceTrs it 100 0 ceV = .map (some [(.str [97], .int 2), (.str [98], .int 1)]) := by
+  simp [rtV, rtBare, peel, ceTsM, ceAM, ceV, Types.get, List.lookup, pickBare, Atlas.get, keyStr,
+    sortKeys, List.mergeSort, List.merge, keyLe, bytesLe, bytesLt, normBare, derefN]
+theorem ce_norm (it : IfaceTys) : normV .pretty ceTsM ceAM ceTrs it 100 0 ceV = ceV := by
+  simp [normV, normBare, peel, ceTsM, ceAM, ceV, Types.get, List.lookup, pickBare, Atlas.get, derefN]
+
+/-- The original statement fails for the map `{"b":1, "a":2}` (listed in that order): the marshaller emits the
+    entries in key order, the unmarshaller commits them in stream order, so the value comes back as
+    `{"a":2, "b":1}`, whereas `normV` keeps the original order.  (Go maps are unordered: the culprit is the use of
+    order-sensitive equality on `Val.map` in the statement, not the model.) -/
+theorem complete_plain_false : ¬ complete_plain_statement := by
+  intro h
+  have h1 := h ceTsM ceAM ceTrs default 100 0 ceV _ ce_plain ce_hasTy (by decide) trivial ce_marshal (by simp)
+  have h2 := complete_plain_rt ceTsM ceAM ceTrs default 100 0 ceV _ ce_plain ce_hasTy ce_distinct ce_marshal
+  rw [h2, ce_rt, ce_norm] at h1
+  simp [ceV] at h1
+
+/-- the original conclusion, for values whose maps are listed in the marshaller's key order
+    (`hkeys : True` replaced by: keys are distinct strings, entries sorted) -/
+theorem complete_plain_sorted (ts : Types) (a : Atlas) (trs : Trs) (it : IfaceTys) (fuel id : Nat) (v : Val) (toks : List Tok)
+    (hp : plainTy ts a 64 id = true) (hv : hasTy ts 1000 id v = true)
+    (hkeys : distinctKeys 1000 v) (hsorted : mapsSorted a.defaultSort 1000 v)
+    (hm : marshalV ts a trs fuel id v = ⟨toks, none⟩) :
     unmV ts a trs it fuel id (zeroVal ts 64 id) toks = .ok (normV .pretty ts a trs it fuel id v) [] toks.length := by
-  sorry
+  rw [complete_plain_rt ts a trs it fuel id v toks hp hv hkeys hm,
+    (rt_eq_norm ts a trs it fuel).1 64 1000 id v (Nat.le_refl _) hp hsorted]
+
+/-- the general statement: the value comes back as `normV` up to the order of map entries -/
+theorem complete_plain_perm (ts : Types) (a : Atlas) (trs : Trs) (it : IfaceTys) (fuel id : Nat) (v : Val) (toks : List Tok)
+    (hp : plainTy ts a 64 id = true) (hv : hasTy ts 1000 id v = true)
+    (hkeys : distinctKeys 1000 v)
+    (hm : marshalV ts a trs fuel id v = ⟨toks, none⟩) :
+    ∃ v', unmV ts a trs it fuel id (zeroVal ts 64 id) toks = .ok v' [] toks.length ∧
+      ValEqv v' (normV .pretty ts a trs it fuel id v) :=
+  ⟨_, complete_plain_rt ts a trs it fuel id v toks hp hv hkeys hm,
+    (rt_eqv_norm ts a trs it fuel).1 64 1000 id v (Nat.le_refl _) hp hkeys⟩
 
 end Refmt.C13
